@@ -43,10 +43,12 @@ Theorem C13_none : forall st p now, build_reply st p now = None <-> (forall q, I
 Proof. exact reply_none_iff. Qed.
 Print Assumptions C13_none.
 
-(* additional records are registered authoritative address records, found under the target of an included SRV answer *)
-Theorem C13_additional : forall st p now r x, store_ok st -> names_short st -> build_reply st p now = Some r -> In x (rp_additional r) ->
-  exists q a t, In q (qs p) /\ In a (rp_answers r) /\ srv_target (rdata_of a) = Some t /\ short_labels t ->
-    registered st x Auth /\ (type_of_rdata (rdata_of x) = TY M_A \/ type_of_rdata (rdata_of x) = TY M_AAAA).
+(* additional records are registered authoritative address records of a matching class, owned by the target of an included SRV answer *)
+Theorem C13_additional : forall st p now r x, build_reply st p now = Some r -> In x (rp_additional r) ->
+  exists q a t, In q (qs p) /\ In a (rp_answers r) /\ srv_target (rdata_of a) = Some t /\
+    registered st x Auth /\ (type_of_rdata (rdata_of x) = TY M_A \/ type_of_rdata (rdata_of x) = TY M_AAAA) /\
+    match_qclass (rclass x) (q_class q) = true /\
+    (store_ok st -> names_short st -> short_labels t -> rname x = t).
 Proof. exact additional_sound. Qed.
 Print Assumptions C13_additional.
 
